@@ -661,3 +661,6 @@ def check(ctx):
     ctx.rule("R14", "the word written is the word on the wire, for every temperature: the set-value builder every accessor write ends in puts a 2-byte value into the message as two bytes big-endian whatever the value (interpreted on a symbolic word) - a builder that takes the width from the VALUE writes a set point below 14.2 C (word < 256) as ONE byte, which the pack stores in the high byte: 14.0 C reads back as 3584 C (C02.R3 borrowed)")
     from .c02 import set_value_encoding as _sve14
     _sve14(ctx.borrowed("R14", "C02"), repo, "R3")
+    ctx.rule("R15", "the echo arrives whole: the temperature word the spa reports after a write travels as the LAST bytes of a framed partial update, and a word's low byte can be any value - the frame round trip hands the payload on byte for byte, also when it ends (or begins) in ASCII white space: a packet parser that strips its three parts tears the word (high byte installed, old low byte kept): 29.0 C reads back as 28.9 (C04.R4's frame round trip of the payload borrowed)")
+    from .c04 import framing as _framing14
+    _framing14(ctx.borrowed("R15", "C04", only=("R4",), key_contains="frame-round-trip::payload"), repo)
